@@ -16,7 +16,7 @@ CONSTANTS MaxP,     \* intervals are taken inside 0..MaxP+1
 IsCanon(f) == IsPrime(f.lo) /\ IsPrime(f.hi)
 (* intervals whose bounds are not prime: same fields, only set_characteristic / characteristic are exercised *)
 AllIv   == [lo : 0..(MaxP + 1), hi : 0..(MaxP + 1)]
-Level(f) == IF ~IsCanon(f) THEN 0
+Level(f) == IF ~Valid(f) \/ ~IsCanon(f) THEN 0
             ELSE LET P == Mod(f) IN IF P <= T3 THEN 3 ELSE IF P <= T2 THEN 2 ELSE IF P <= T1 THEN 1 ELSE 0
 
 (* machine integers used as operands of the mixed operations (element op integer) *)
@@ -68,7 +68,6 @@ Case ==
                             rsub |-> SubP(Red(n, P), x, P), mul |-> MulP(x, Red(n, P), P), eq |-> (x = Red(n, P))]
                            : n \in MixedFor(P, x)}]
       once  == [bigconv |-> {[n |-> s, val |-> SBigMod(s, P)] : s \in BigInts},
-                invtab |-> {[x |-> v, v |-> PInvV(v, DOMAIN ps, f)] : v \in 1..(IF P > 13 THEN 12 ELSE P - 1)},
                 pmi |-> {[q |-> SubProd(sel, ps), v |-> PMI(sel, f)] : sel \in QSels(f)},
                 setchar |-> {[lo |-> g.lo, hi |-> g.hi,
                               refused |-> ~HasPrime(g.lo, g.hi),
@@ -77,5 +76,6 @@ Case ==
   IN IF y = 0 /\ z = 0
      THEN IF x = 0 THEN [b |-> base, u |-> unary, o |-> once] ELSE [b |-> base, u |-> unary]
      ELSE [b |-> base]
-EmitCase == PrintT(<<"CASE", ToJson(Case)>>)
+(* nothing is observed in NoField (after a refused set_characteristic) *)
+EmitCase == Valid(fld) => PrintT(<<"CASE", ToJson(Case)>>)
 =============================================================================
